@@ -272,3 +272,30 @@ func Verif_C15_NodeIdentity() {
 	}
 	_, _ = gotA, gotB
 }
+
+//verif:entry native tier=quick,thorough cover=two,one,collision
+//verif:stub github.com/zeromicro/go-zero/core/lang.Repr c15Repr
+//verif:doc Removal down to one node (hash collisions allowed, ring replicas 1): A, B and C are added, every virtual-node hash and the probe hash symbolic (so any two or all three may share a slot), then two of them are removed in either order (6 scripts): after the first removal Get answers one of the two remaining nodes, after the second it answers the last remaining node for every probe - no slot left behind by the removed nodes swallows a lookup.
+func Verif_C15_RemoveToOne() {
+	hf := &c15Hash{memo: map[string]uint64{}}
+	h := c15NewRing(1, hf)
+	for _, n := range c15Names {
+		h.Add(n)
+	}
+	if len(h.keys) > len(h.ring) {
+		rt.Cover("collision")
+	}
+	x := rt.Choose("first", 3)
+	y := (x + 1 + rt.Choose("second", 2)) % 3
+	z := 3 - x - y
+	h.Remove(c15Names[x])
+	got, ok := h.Get("probe")
+	rt.Cover("two")
+	rt.Assert(ok, "a non-empty ring always returns a node")
+	rt.Assert(got == c15Names[y] || got == c15Names[z], "Get returns one of the nodes currently in the ring (never a removed one)")
+	h.Remove(c15Names[y])
+	got, ok = h.Get("probe")
+	rt.Cover("one")
+	rt.Assert(ok, "a ring with one node left returns it for every probe")
+	rt.Assert(got == c15Names[z], "after removing two of three nodes every probe maps to the remaining node")
+}
